@@ -1,8 +1,12 @@
 // Package c20 checks property C20 (processing cost grows near-linearly with input size).
 //
-// Space: every (input family, entry point) pair of two explicit catalogues, each measured at every
-// size n of a geometric ladder (2^8 .. 2^14 in the quick tier, up to the documented input-size and
-// token limits in the thorough tier).
+// Space: every (input family, entry point) pair of two explicit catalogues (families.go,
+// entries.go).  Each pair is one case and is measured at every size n of two ladders:
+//
+//	small sizes   n = 8, 10, 12 .. 64          (explosive growth is caught while it is still cheap)
+//	doublings     n = 2^4, 2^5, ..             quick: up to 2^14 and 512 KiB of input
+//	                                           thorough: Tokenize and Parse up to the documented limits
+//	                                           (10 MiB input, 1M tokens), the other entry points up to 1 MiB
 //
 // Cost measure (deterministic, no clock): the harness is built with per-basic-block execution
 // counters (cmd/c20/build.sh).  The cost of one call is
@@ -16,13 +20,25 @@
 // total block count, or the count of any single basic block, or the allocated bytes, is at least
 // 10^5 at some size n and then grows by more than a factor 2^1.5 (2.83) from n to 2n AND again
 // from 2n to 4n.  n log n growth gives factors <= 2.3 on this ladder, quadratic growth gives 4.
+// On the small sizes the rule is: at least 10^5, then more than x1.5 for each of three consecutive
+// steps of +2 elements (only super-quadratic, i.e. in practice exponential, growth does that).
 // An input that is rejected by a limit (depth, tokens, size) simply costs little.
+//
+// The signature of a violation is superlinear:<entry point>:<function>, the function being the one
+// that contains the hottest basic block that breaks the rule (per-block counts localise), or, when
+// only the allocated bytes break it, the library function that allocates most (found by repeating
+// the call in a child process with every allocation profiled).  After a first violation the ladder
+// of the case goes on while one call costs less than a fixed number of block executions, so that an
+// independent second culprit is reported by the same run.
 //
 // A third measure, user CPU time of the calling thread, is a back-stop for cost that neither
 // counters nor allocation see (assembly routines of the runtime: bytes.Count, memmove ...).  It is
 // only consulted where one call takes >= 200 ms, needs exponent > 1.7 over two consecutive
-// doublings on the minimum of three runs, a stable calibration loop around every timed run, and
-// (like every violation) five reproductions in fresh processes.
+// doublings on the minimum of three runs, a calibration loop around every timed run that varies by
+// less than 15% (otherwise the machine is too busy and the back-stop is skipped and counted in the
+// evidence), and (like every violation) five reproductions in fresh processes.  It is deliberately
+// weak: assembly routines are so fast that a quadratic cost hidden in them only starts to dominate
+// near the size limits.
 package c20
 
 import (
@@ -298,11 +314,11 @@ func Check() *common.Check {
 	return &common.Check{
 		ID:    "C20",
 		Level: "exploration",
-		Rule: "every (input family, entry point) pair of the two catalogues in checks/c20/families.go and entries.go, each measured at every size of the ladder " +
-			"n = 2^8, 2^9, ... (quick: up to 2^14; thorough: up to the input-size limit of 10 MiB / the 1M-token limit); a case is one pair with its whole ladder; " +
-			"distinct = distinct (family, entry point); non-trivial = the entry point accepted the input at >= 3 sizes and executed >= 10^5 basic blocks at the largest one, " +
-			"so that the two-doublings rule was actually evaluated on it. The ladder of a case stops early at the first violation (the next size would cost 4x) " +
-			"and, as a cap, when one call exceeds 20 s",
+		Rule: "every (input family, entry point) pair of the two catalogues in checks/c20/families.go and entries.go; a case is one pair, measured at every size of " +
+			"n = 8, 10 .. 64 and n = 2^4, 2^5, ... (quick: up to 2^14 elements and 512 KiB, regular-expression scanners 16 KiB; thorough: Tokenize and Parse up to the 10 MiB input / 1M token limits, other entry points up to 1 MiB); " +
+			"distinct = distinct (family, entry point); non-trivial = the entry point accepted the input at >= 3 sizes of the doubling ladder and executed >= 10^5 basic blocks at the largest one " +
+			"(so the two-doublings rule was really evaluated on it), or the case was found super-linear. After a violation the ladder ends at the first call above 5e7 (thorough 3e8) block executions; " +
+			"as a cap (exhaustive:false) it ends when one call exceeds 20 s",
 		Assume: []string{
 			"cost = basic-block executions (cmd/cover counters, atomic mode, read back in-process through runtime/coverage; a calibration loop of known length is checked on every start) + allocated bytes (MemStats.TotalAlloc); " +
 				"work done inside runtime assembly (memmove, bytealg) is not counted by these two measures and is only seen by the CPU-time back-stop",
@@ -433,6 +449,9 @@ stages:
 			if !e.Thorough() && en.quickBytes > 0 && len(sql) > en.quickBytes && len(cur) >= 3 {
 				break
 			}
+			if e.Thorough() && !en.toLimit && len(sql) > 1<<20 && len(cur) >= 3 {
+				break // thorough: only Tokenize and Parse go up to the limits, the other entry points to 1 MiB
+			}
 			var call func() string
 			ok := true
 			if en.needAST {
@@ -511,6 +530,7 @@ stages:
 				c0 := calibTime()
 				m := p.cpu
 				for k := 0; k < 2; k++ {
+					touchCur()
 					if d := timeOnly(call); d < m {
 						m = d
 					}
